@@ -350,7 +350,7 @@ def forwarding_slice(rep, rid: str, prog, names: tuple[str, ...], text: str, flo
 
     pat = re.compile(r"(?<![A-Za-z_])(" + "|".join(re.escape(n) for n in names) + r")(?![A-Za-z_])")
     rep.rule(rid, text)
-    forwarding(RuleView(rep, rid, keep=lambda key, msg: bool(pat.search(key) or pat.search(msg))), prog)
+    forwarding(RuleView(rep, rid, keep=lambda key, msg: bool(pat.search(key) or pat.search(msg))), prog, strict=False)
     rep.floor(rid, floor)
 
 
